@@ -2,6 +2,10 @@
 
 REAL_TABLES = ["fw/table FibStrategyTree", "fw/table FibStrategyHashTable", "fw/table RibTable (RIB -> FIB flattening)", "std/encoding names"]
 
+FW_COMPONENTS = {"real": ["fw/fw Thread.Run loop and pipelines", "fw/fw best-route and multicast strategies", "fw/table PitCsTree + CsLRU + DeadNonceList (own timers on the bubble clock)", "fw/table FIB (nametree or hashtable)", "fw/table NetworkRegion", "std/ndn/spec_2022 packet codec"], "stub": ["faces (recording dispatch.Face with scope/link type)", "peers (scripted by the scenario)", "link service (packets enter at the forwarding-thread queue)"]}
+PLAN_FW_FAULTS = "network faults are scripted by the scenario: lost Data (Interest expires), duplicated Data, Interests re-entering on another face with the same nonce (loop), tokens echoed on the wrong face or foreign; endpoint fault: face teardown; clock: zero advances, exact-deadline landings, jumps past every lifetime"
+FW_ASSUMPTIONS = ["single forwarding thread (thread id 0); multi-thread dispatch is exercised by facesim/mgmtsim", "64-bit name hashes and 32-bit PIT tokens do not collide within a run"]
+
 PLAN = {
     "C05": {
         "parts": [{"engine": "tablesim", "quick": 60000, "thorough": 6000000}],
@@ -19,10 +23,50 @@ PLAN = {
         "assumptions": ["routes are identified by (prefix, face, origin) as in the management protocol", "expiration periods are not simulated (the forwarder does not act on them)"],
     },
     "C08": {
-        "parts": [{"engine": "tablesim", "quick": 30000, "thorough": 3000000}],
-        "nontrivial": "(table part) >=2 nested prefixes held routes and >=1 removal/teardown happened before the drain",
-        "fault_note": "fault kind = face teardown injected into the registration history",
-        "components": {"real": REAL_TABLES, "stub": []},
-        "assumptions": [],
+        "parts": [{"engine": "fwsim", "quick": 20000, "thorough": 2000000}, {"engine": "tablesim", "quick": 30000, "thorough": 3000000}],
+        "nontrivial": "(forwarder part) >=1 PIT entry expired unsatisfied and >=1 was satisfied by Data before the drain phase; (table part) >=2 nested prefixes held routes and >=1 removal/teardown happened before the drain",
+        "fault_note": PLAN_FW_FAULTS + "; then faults and traffic stop and the clock runs past every lifetime (bounded-liveness drain). Table part: face teardown injected into the registration history",
+        "components": {"real": FW_COMPONENTS["real"] + REAL_TABLES, "stub": FW_COMPONENTS["stub"]},
+        "assumptions": FW_ASSUMPTIONS,
+    },
+    "C09": {
+        "parts": [{"engine": "fwsim", "quick": 20000, "thorough": 2000000}],
+        "nontrivial": ">=1 /localhost packet was offered while a non-local face existed",
+        "fault_note": "network faults are scripted by the scenario: lost Data (Interest expires), duplicated Data, Interests re-entering on another face with the same nonce (loop), tokens echoed on the wrong face; endpoint fault: face teardown",
+        "components": {"real": ["fw/fw Thread.Run loop and pipelines", "fw/fw best-route and multicast strategies", "fw/table PitCsTree + CsLRU + DeadNonceList (own timers on the bubble clock)", "fw/table FIB (nametree or hashtable)", "fw/table NetworkRegion", "std/ndn/spec_2022 packet codec"], "stub": ["faces (recording dispatch.Face with scope/link type)", "peers (scripted by the scenario)", "link service (packets enter at the forwarding-thread queue)"]},
+        "assumptions": ["single forwarding thread (thread id 0); multi-thread dispatch is exercised by facesim/mgmtsim"],
+    },
+    "C01": {
+        "parts": [{"engine": "fwsim", "quick": 25000, "thorough": 2500000}],
+        "nontrivial": ">=1 arriving Data was delivered to >=1 pending downstream",
+        "fault_note": PLAN_FW_FAULTS,
+        "components": FW_COMPONENTS,
+        "assumptions": FW_ASSUMPTIONS,
+    },
+    "C02": {
+        "parts": [{"engine": "fwsim", "quick": 25000, "thorough": 2500000}],
+        "nontrivial": ">=1 Interest was forwarded and >=1 was dropped/aggregated for a stated reason (hop limit 0, no nonce, loop, dead nonce, suppression, unknown face, scope)",
+        "fault_note": PLAN_FW_FAULTS,
+        "components": FW_COMPONENTS,
+        "assumptions": FW_ASSUMPTIONS,
+    },
+    "C07": {
+        "parts": [{"engine": "fwsim", "quick": 25000, "thorough": 2500000}],
+        "nontrivial": ">=1 eviction happened and >=1 MustBeFresh lookup met a stale cached packet",
+        "fault_note": PLAN_FW_FAULTS + "; clock: freshness periods cross their boundary through scenario-chosen advances (0, +-1 ms around periods)",
+        "components": FW_COMPONENTS,
+        "assumptions": FW_ASSUMPTIONS + ["'hit by an exact-name lookup' is read as a lookup without CanBePrefix"],
     },
 }
+
+NOT_APPLICABLE = [
+    {"property_id": "C03", "reason": "encode->decode round trip is a pure function of the packet value and a byte segmentation: no schedule, clock, fault or shared state for a simulator to own"},
+    {"property_id": "C12", "reason": "sign/verify/tamper detection is a pure function of (signer, packet bytes, bit position): no time, I/O or interleaving"},
+    {"property_id": "C13", "reason": "generated-model round trip and generator-output equality are pure functions of values and definition files: no dynamic behaviour"},
+    {"property_id": "C14", "reason": "order/equality/hash/URI laws of names are algebraic properties of pure functions"},
+]
+
+ENGINES = [
+    {"name": "tablesim", "path": "sim/tablesim", "serves_properties": ["C05", "C06", "C08"], "kind_free_text": "operation histories (with face teardown injected) against the real FIBs and RIB; reference models; shrinking; replay"},
+    {"name": "fwsim", "path": "sim/fwsim", "serves_properties": ["C01", "C02", "C07", "C08", "C09"], "kind_free_text": "one real forwarding thread in a synctest bubble (fake clock, quiescence stepping), simulated faces and scripted peers, reference PIT/CS/FIB model"},
+]
